@@ -259,6 +259,17 @@ def run_case(case, res):
                         expn.add((Literal(start.data_id), Literal(str(start.data))))
                     if gotn != expn:
                         bad.append(f"RDF name triples (root={isroot}, add_self={add_self}): got {sorted(map(str, gotn))}, expected {sorted(map(str, expn))}")
+                    if not isroot:
+                        # a node mapper may veto the standard attributes of a node (return False): the edges are not its business
+                        vetoed = {id(x) for i, x in enumerate(D + [start]) if i % 2 == 0}
+                        g2 = attempt(lambda: start.to_rdf_graph(add_self=add_self, node_mapper=lambda graph, gn, node: False if id(node) in vetoed else None))
+                        res.count("rdf_exports_with_vetoing_mapper")
+                        if isinstance(g2, tuple):
+                            bad.append(f"to_rdf_graph(node_mapper returning False for some nodes) raised {g2!r}")
+                        else:
+                            got2 = {(s, o) for s, p, o in g2.triples((None, NUTREE_NS.has_child, None))}
+                            if got2 != exp:
+                                bad.append(f"RDF has_child with a node mapper that returns False for some nodes: got {sorted(map(str, got2))}, expected {sorted(map(str, exp))}")
                     if typed:
                         gotk = {(s, o) for s, p, o in g.triples((None, NUTREE_NS.kind, None))}
                         expk = {(Literal(x.data_id), Literal(x.kind)) for x in D}
